@@ -362,6 +362,23 @@ func Release() {
 	mu.Unlock()
 }
 
+// Atomically runs f with delivery held, so that the notes one filesystem
+// operation raises on several vnodes become visible to Kevent together, as
+// they do for a system call (a delivery hold already in force stays).
+func Atomically(f func()) {
+	mu.Lock()
+	was := hold
+	hold = true
+	mu.Unlock()
+	f()
+	mu.Lock()
+	hold = was
+	if !was {
+		cond.Broadcast()
+	}
+	mu.Unlock()
+}
+
 // WaitIdle blocks until every kqueue has nothing pending and its reader is
 // asleep in Kevent: everything raised so far has been handled completely.
 func WaitIdle() {
